@@ -34,6 +34,8 @@ RV_PROGRAMS = [
     ("runtime-fault", "addi x1, x0, 1\nlw x2, 0(x0)\naddi x3, x0, 3\n"),
     ("fault-at-the-first-instruction", "lw x2, 0(x0)\naddi x3, x0, 3\n"),
     ("infinite-loop", "addi x1, x1, 1\nbeq x0, x0, -4\n"),
+    ("label-on-line-2", "addi x1, x0, 1\nl: addi x2, x0, 2\nbne x2, x2, l\n"),
+    ("parse-fail-unknown-variable-behind-an-inline-label", "l: addi x1, x0, 1\nlw x2, novar\nq: addi x3, x0, 3\n"),
     ("parse-fail-line-1", "addi x1, x0\naddi x2, x0, 2\n"),
     ("parse-fail-after-data", ".data\nw: .word 0x11223344\ns: .string \"ab\"\n.text\naddi x1, x0, 1\nbeq x0, x0, nowhere\n"),
 ]
